@@ -217,6 +217,15 @@ impl Property for C07 {
                 ensure_eq!(re.to_string().map_err(|e| e.to_string()), Ok(want_str.clone()), "prefixed_address_string");
                 let parsed = lib_call("P2PKHAddress::from_string", || P2PKHAddress::from_string(&want_str))?.map_err(|e| failure("valid_address_accepted", format!("Err({}) for {}", e, want_str), "Ok"))?;
                 ensure!(parsed == re, "address_string_roundtrip", "parsed address differs from the re-prefixed one", "equal");
+                // serde forms (hex string / base58 string) round-trip
+                let pj = lib_call("serde PublicKey", || serde_json::to_string(&pk))?.map_err(|e| failure("pubkey_to_json", e.to_string(), "Ok"))?;
+                ensure_eq!(pj, format!("\"{}\"", hex::encode(&want_pub)), "pubkey_json_form");
+                let pkb: PublicKey = lib_call("serde PublicKey", || serde_json::from_str(&pj))?.map_err(|e| failure("pubkey_json_decodes", e.to_string(), "Ok"))?;
+                ensure!(pkb == pk, "pubkey_json_roundtrip", "differs", "equal");
+                let aj = lib_call("serde P2PKHAddress", || serde_json::to_string(&re))?.map_err(|e| failure("address_to_json", e.to_string(), "Ok"))?;
+                ensure_eq!(aj, format!("\"{}\"", want_str), "address_json_form");
+                let ab: P2PKHAddress = lib_call("serde P2PKHAddress", || serde_json::from_str(&aj))?.map_err(|e| failure("address_json_decodes", e.to_string(), "Ok"))?;
+                ensure!(ab == re, "address_json_roundtrip", "differs", "equal");
                 // locking script
                 for a in [&addr, &re] {
                     let ls = lib_call("get_locking_script", || a.get_locking_script())?.map_err(|e| failure("get_locking_script", e.to_string(), "Ok"))?;
